@@ -83,6 +83,7 @@ def run(tier):
         rr = subprocess.run([cold, progfile, "1", "0", "1", "0"], capture_output=True, text=True, env=dict(env, THREADS_REF_FILE=rfile, THREADS_REF_SAVE="1"), timeout=600)
         if not os.path.exists(rfile):
             raise common.HarnessError("reference table not written: " + rr.stdout[-300:] + rr.stderr[-300:])
+    gap_jobs = [j for j in runs if j[0] == "tsan"][:2 if not full else 8] + [j for j in runs if j[0] == "asan"][:1 if not full else 4]
     timeouts = [0]
 
     def go(job):
@@ -93,6 +94,8 @@ def run(tier):
         try:
             e2 = dict(env, THREADS_BIG_EXT_ONLY="1") if fl == "tsan" else dict(env)
             e2["THREADS_REF_FILE"] = reff[pf if fl == "tsan" else pfg]
+            if job in gap_jobs:
+                e2["THREADS_GAP"] = "1"  # this run starts with the gap trials (exact numbers of calls by neighbour threads between two uses)
             r = subprocess.run([binary, pf if fl == "tsan" else pfg, str(T), str(iters), str(seed), str(stag)] + extra, capture_output=True, text=True, env=e2, timeout=max(300, 0.04 * (job[6] if len(job) > 6 else 0)), errors="replace")  # (about 10 ms per cold-start trial)
             return r.returncode, r.stdout, r.stderr
         except subprocess.TimeoutExpired:
@@ -127,6 +130,8 @@ def run(tier):
             v.inconclusive.append({"why": "timeout", "case": case["key"]})
             continue
         tl = [l for l in out.splitlines() if l.startswith("T ")]
+        for gl in [l for l in out.splitlines() if l.startswith("G ")]:
+            stats["gap_trials"] = stats.get("gap_trials", 0) + int(gl.split()[1])
         reports = tsan_reports(err) if fl == "tsan" else []
         stats["tsan_report_blocks"] += len(reports)
         sig = common.san_summary(err) if fl == "asan" else None
@@ -151,7 +156,7 @@ def run(tier):
             v.distinct((fl, T, seed))
             v.sample({"build": fl, "threads": T, "iterations_per_thread": iters, "operations": int(t[3]), "mismatches": 0, "tsan_reports": 0})
     v.cov["rule"] = ("N in {2,4,8,16} threads released by a barrier with staggered starts, each running create -> random option setters (individual or asm_set_all / asm_sib) -> assemble (plain / chunk fitting / counting; through the string entry points, the FILE entry points on a thread-private file or the deprecated aliases; debug output on in one call of eight; 200 programs over lines of every "
-                     "first letter of the lookup tables, some failing, some of 650-7000 lines) (in a quarter of the iterations in two calls split at a line boundary; in half of them while a SECOND live instance of the same thread with other options holds and keeps another program) -> in half of the iterations asm_create_bin_file to a thread-private path, read back and compared with the code -> compare with the single-threaded reference -> destroy on private buffers; plus thousands of COLD starts (a fresh process per trial whose first library calls are made concurrently by 2-16 threads released by a spin barrier with 0-5000 ns skew, uninstrumented -O0 build), with random sched_yield/nanosleep between API calls; the reference is "
+                     "first letter of the lookup tables, some failing, some of 650-7000 lines) (in a quarter of the iterations in two calls split at a line boundary; in half of them while a SECOND live instance of the same thread with other options holds and keeps another program) -> in half of the iterations asm_create_bin_file to a thread-private path, read back and compared with the code -> compare with the single-threaded reference -> destroy on private buffers; plus gap trials (a victim thread uses an instance, destroys it and uses a new one with other options while two neighbour threads make EXACTLY D setter calls / create+destroy pairs in between, D = 2^8, 2^15, 2^16, 2^17 -16..+16); plus thousands of COLD starts (a fresh process per trial whose first library calls are made concurrently by 2-16 threads released by a spin barrier with 0-5000 ns skew, uninstrumented -O0 build), with random sched_yield/nanosleep between API calls; the reference is "
                      "computed in a forked child so the first-ever asm_create_instance calls (the only moment the global tables change value) overlap in the threads; %d runs under ThreadSanitizer + runs under ASan; "
                      "reports de-duplicated by library frames; distinct = clean (build, threads, seed) runs" % nrep)
     v.cov["exhaustive"] = False
